@@ -365,123 +365,135 @@ impl QueryEngine {
     }
 
     /// Extract time range from a SQL query by analyzing the logical plan
+    ///
+    /// The returned range contains the timestamp of every row the query's
+    /// filters can accept, so chunks outside it cannot contribute to the answer.
     pub async fn extract_time_range(&self, sql: &str) -> Result<TimeRange> {
         let df = self.ctx.sql(sql).await?;
         let plan = df.logical_plan();
 
         // Extract time predicates from the plan
-        let mut min_time: Option<i64> = None;
-        let mut max_time: Option<i64> = None;
+        let mut bounds: Option<(i64, i64)> = None;
 
-        Self::extract_time_bounds(plan, &mut min_time, &mut max_time);
+        Self::extract_time_bounds(plan, &mut bounds);
 
-        // Default to last hour if no time bounds found
-        let now = chrono::Utc::now().timestamp_nanos_opt().unwrap_or(0);
-        let hour_ago = now - 3_600_000_000_000;
-
-        Ok(TimeRange::new(
-            min_time.unwrap_or(hour_ago),
-            max_time.unwrap_or(now),
-        ))
+        match bounds {
+            Some((min_time, max_time)) => Ok(TimeRange::new(min_time, max_time)),
+            None => {
+                // Default to last hour if no filter constrains the timestamp at all
+                let now = chrono::Utc::now().timestamp_nanos_opt().unwrap_or(0);
+                let hour_ago = now - 3_600_000_000_000;
+                Ok(TimeRange::new(hour_ago, now))
+            }
+        }
     }
 
     /// Recursively extract time bounds from a logical plan
-    fn extract_time_bounds(
-        plan: &LogicalPlan,
-        min_time: &mut Option<i64>,
-        max_time: &mut Option<i64>,
-    ) {
+    ///
+    /// `bounds` stays `None` while no filter mentions the timestamp column.
+    /// Rows have to pass every filter of the plan, so the bounds of the
+    /// individual filters are intersected.
+    fn extract_time_bounds(plan: &LogicalPlan, bounds: &mut Option<(i64, i64)>) {
         match plan {
             LogicalPlan::Filter(filter) => {
-                Self::extract_time_from_expr(&filter.predicate, min_time, max_time);
-                Self::extract_time_bounds(&filter.input, min_time, max_time);
+                if Self::references_time_column(&filter.predicate) {
+                    let (min_time, max_time) = Self::extract_time_from_expr(&filter.predicate);
+                    let (cur_min, cur_max) = bounds.unwrap_or((i64::MIN, i64::MAX));
+                    *bounds = Some((cur_min.max(min_time), cur_max.min(max_time)));
+                }
+                Self::extract_time_bounds(&filter.input, bounds);
             }
             LogicalPlan::Projection(proj) => {
-                Self::extract_time_bounds(&proj.input, min_time, max_time);
+                Self::extract_time_bounds(&proj.input, bounds);
             }
             LogicalPlan::Sort(sort) => {
-                Self::extract_time_bounds(&sort.input, min_time, max_time);
+                Self::extract_time_bounds(&sort.input, bounds);
             }
             LogicalPlan::Limit(limit) => {
-                Self::extract_time_bounds(&limit.input, min_time, max_time);
+                Self::extract_time_bounds(&limit.input, bounds);
             }
             LogicalPlan::Aggregate(agg) => {
-                Self::extract_time_bounds(&agg.input, min_time, max_time);
+                Self::extract_time_bounds(&agg.input, bounds);
             }
             _ => {}
         }
+    }
+
+    /// Whether the expression is the timestamp column itself
+    fn is_time_column(expr: &Expr) -> bool {
+        matches!(expr, Expr::Column(col) if col.name == "timestamp" || col.name == "time")
+    }
+
+    /// Whether the expression mentions the timestamp column anywhere
+    fn references_time_column(expr: &Expr) -> bool {
+        expr.column_refs()
+            .iter()
+            .any(|col| col.name == "timestamp" || col.name == "time")
     }
 
     /// Extract time bounds from a filter expression
-    fn extract_time_from_expr(expr: &Expr, min_time: &mut Option<i64>, max_time: &mut Option<i64>) {
+    ///
+    /// Returns a closed interval `(min, max)` that contains the timestamp of
+    /// every row for which `expr` is true. `AND` intersects the intervals of
+    /// its operands, `OR` takes the smallest interval covering both, and
+    /// everything that cannot be bounded from literals (negations, `!=`,
+    /// non-literal operands, other expressions) is unbounded.
+    fn extract_time_from_expr(expr: &Expr) -> (i64, i64) {
+        const UNBOUNDED: (i64, i64) = (i64::MIN, i64::MAX);
+
         match expr {
-            Expr::BinaryExpr(binary) => {
-                // Check if this is a timestamp comparison
-                if let Expr::Column(col) = binary.left.as_ref() {
-                    if col.name == "timestamp" || col.name == "time" {
-                        if let Some(value) = Self::extract_timestamp_value(&binary.right) {
-                            match binary.op {
-                                Operator::Gt | Operator::GtEq => {
-                                    *min_time = Some(min_time.unwrap_or(i64::MAX).min(value));
-                                }
-                                Operator::Lt | Operator::LtEq => {
-                                    *max_time = Some(max_time.unwrap_or(i64::MIN).max(value));
-                                }
-                                Operator::Eq => {
-                                    *min_time = Some(value);
-                                    *max_time = Some(value);
-                                }
-                                _ => {}
-                            }
+            Expr::BinaryExpr(binary) => match binary.op {
+                Operator::And => {
+                    let (left_min, left_max) = Self::extract_time_from_expr(&binary.left);
+                    let (right_min, right_max) = Self::extract_time_from_expr(&binary.right);
+                    (left_min.max(right_min), left_max.min(right_max))
+                }
+                Operator::Or => {
+                    let (left_min, left_max) = Self::extract_time_from_expr(&binary.left);
+                    let (right_min, right_max) = Self::extract_time_from_expr(&binary.right);
+                    (left_min.min(right_min), left_max.max(right_max))
+                }
+                op => {
+                    if Self::is_time_column(&binary.left) {
+                        // timestamp <op> literal
+                        match (Self::extract_timestamp_value(&binary.right), op) {
+                            (Some(value), Operator::Gt | Operator::GtEq) => (value, i64::MAX),
+                            (Some(value), Operator::Lt | Operator::LtEq) => (i64::MIN, value),
+                            (Some(value), Operator::Eq) => (value, value),
+                            _ => UNBOUNDED,
                         }
+                    } else if Self::is_time_column(&binary.right) {
+                        // Reversed comparison (literal on left)
+                        match (Self::extract_timestamp_value(&binary.left), op) {
+                            (Some(value), Operator::Lt | Operator::LtEq) => (value, i64::MAX),
+                            (Some(value), Operator::Gt | Operator::GtEq) => (i64::MIN, value),
+                            (Some(value), Operator::Eq) => (value, value),
+                            _ => UNBOUNDED,
+                        }
+                    } else {
+                        UNBOUNDED
                     }
                 }
-                // Handle reversed comparison (literal on left)
-                if let Expr::Column(col) = binary.right.as_ref() {
-                    if col.name == "timestamp" || col.name == "time" {
-                        if let Some(value) = Self::extract_timestamp_value(&binary.left) {
-                            match binary.op {
-                                Operator::Lt | Operator::LtEq => {
-                                    *min_time = Some(min_time.unwrap_or(i64::MAX).min(value));
-                                }
-                                Operator::Gt | Operator::GtEq => {
-                                    *max_time = Some(max_time.unwrap_or(i64::MIN).max(value));
-                                }
-                                _ => {}
-                            }
-                        }
-                    }
-                }
-                // Recurse into AND/OR expressions
-                if matches!(binary.op, Operator::And | Operator::Or) {
-                    Self::extract_time_from_expr(&binary.left, min_time, max_time);
-                    Self::extract_time_from_expr(&binary.right, min_time, max_time);
-                }
+            },
+            Expr::Between(between) if !between.negated && Self::is_time_column(&between.expr) => {
+                let low = Self::extract_timestamp_value(&between.low).unwrap_or(i64::MIN);
+                let high = Self::extract_timestamp_value(&between.high).unwrap_or(i64::MAX);
+                (low, high)
             }
-            Expr::Between(between) => {
-                if let Expr::Column(col) = between.expr.as_ref() {
-                    if col.name == "timestamp" || col.name == "time" {
-                        if let Some(low) = Self::extract_timestamp_value(&between.low) {
-                            *min_time = Some(min_time.unwrap_or(i64::MAX).min(low));
-                        }
-                        if let Some(high) = Self::extract_timestamp_value(&between.high) {
-                            *max_time = Some(max_time.unwrap_or(i64::MIN).max(high));
-                        }
-                    }
-                }
-            }
-            _ => {}
+            _ => UNBOUNDED,
         }
     }
 
-    /// Extract timestamp value from an expression
+    /// Extract timestamp value (in nanoseconds) from a literal expression
     fn extract_timestamp_value(expr: &Expr) -> Option<i64> {
         match expr {
             Expr::Literal(ScalarValue::Int64(Some(v))) => Some(*v),
             Expr::Literal(ScalarValue::TimestampNanosecond(Some(v), _)) => Some(*v),
-            Expr::Literal(ScalarValue::TimestampMicrosecond(Some(v), _)) => Some(*v * 1000),
-            Expr::Literal(ScalarValue::TimestampMillisecond(Some(v), _)) => Some(*v * 1_000_000),
-            Expr::Literal(ScalarValue::TimestampSecond(Some(v), _)) => Some(*v * 1_000_000_000),
+            Expr::Literal(ScalarValue::TimestampMicrosecond(Some(v), _)) => v.checked_mul(1000),
+            Expr::Literal(ScalarValue::TimestampMillisecond(Some(v), _)) => {
+                v.checked_mul(1_000_000)
+            }
+            Expr::Literal(ScalarValue::TimestampSecond(Some(v), _)) => v.checked_mul(1_000_000_000),
             _ => None,
         }
     }
@@ -584,6 +596,10 @@ impl QueryEngine {
                 }
             }
             Expr::Between(between) => {
+                if between.negated {
+                    // NOT BETWEEN cannot be pruned with min/max statistics
+                    return None;
+                }
                 if let Expr::Column(col) = between.expr.as_ref() {
                     if col.name == "timestamp" || col.name == "time" {
                         return None;
